@@ -454,3 +454,117 @@ def seed():
 
 def fams():
     return [f for f in os.environ.get("VERIF_FAMILIES", "OO").split(",") if f]
+
+
+# ------------------------------------------- crash-isolated child batches
+# (used by iter_rt / alloc_rt: an interpreter crash must become a failure of
+# the case that caused it, not the death of the stand-in)
+class Progress:
+    """Child side: three int64 counters (current case index, evaluations,
+    non-trivial cases) in a file-backed shared mapping, updated *before* each
+    case runs; the mapping survives a SIGSEGV/abort of the child."""
+
+    def __init__(self, path):
+        import mmap
+        self.f = open(path, "r+b")
+        self.m = mmap.mmap(self.f.fileno(), 24)
+
+    def set(self, idx, evals, nontrivial):
+        import struct
+        self.m[0:24] = struct.pack("qqq", idx, evals, nontrivial)
+
+
+def run_batches(module, specs, workers=None, timeout=600, max_restarts=6, env=None):
+    """Run `python -m rtc.<module> --child` once per spec, in parallel.  The
+    child reads the spec (JSON, with 'start' = first case index and 'progress'
+    = path of the Progress file) from stdin and prints one JSON object per
+    line, the last one {"done": true, ...}.  A child that dies without the
+    'done' line crashed (or hung: timeout) in case Progress.idx: this is
+    recorded and a new child resumes at idx + 1 (at most max_restarts times).
+    -> list of {"spec", "lines", "crashes": [{"case","rc","stderr","evals","nontrivial"}]}"""
+    import concurrent.futures as cf
+    import json
+    import struct
+    import subprocess
+    import sys
+    import tempfile
+    e = dict(os.environ)
+    e.setdefault("MALLOC_PERTURB_", "85")    # glibc: freed blocks are overwritten, stale reads become visible
+    e.update(env or {})
+
+    def one(spec):
+        res = {"spec": spec, "lines": [], "crashes": []}
+        start = spec.get("start", 0)
+        with tempfile.NamedTemporaryFile(prefix="verif-prog-") as pf:
+            for _ in range(max_restarts + 1):
+                pf.seek(0)
+                pf.write(struct.pack("qqq", -1, 0, 0))
+                pf.flush()
+                sp = dict(spec, start=start, progress=pf.name)
+                p = subprocess.Popen([sys.executable, "-m", "rtc." + module, "--child"], env=e,
+                                     stdin=subprocess.PIPE, stdout=subprocess.PIPE, stderr=subprocess.PIPE, text=True)
+                try:
+                    out, err = p.communicate(json.dumps(sp), timeout=timeout)
+                    rc = p.returncode
+                except subprocess.TimeoutExpired:
+                    p.kill()
+                    out, err = p.communicate()
+                    rc = "timeout"
+                done = False
+                for ln in out.splitlines():
+                    try:
+                        o = json.loads(ln)
+                    except ValueError:
+                        continue
+                    if isinstance(o, dict):
+                        res["lines"].append(o)
+                        done = done or bool(o.get("done"))
+                if done:
+                    break
+                pf.seek(0)
+                idx, ev, nt = struct.unpack("qqq", pf.read(24))
+                res["crashes"].append({"case": idx, "rc": rc, "stderr": (err or "")[-600:], "evals": ev, "nontrivial": nt})
+                if idx < 0:          # died before the first case: nothing to resume
+                    break
+                start = idx + 1
+        return res
+
+    with cf.ThreadPoolExecutor(max_workers=workers or os.cpu_count() or 4) as ex:
+        return list(ex.map(one, specs))
+
+
+# ------------------------------------------------- slot ownership (C14, C16)
+def is_node(x):
+    return type(x).__module__.startswith("BTrees") and hasattr(x, "__getstate__")
+
+
+def slot_counts(roots, objs):
+    """How many slots hold each object of `objs` (compared by identity):
+    -> list of counts parallel to objs.  `roots` are containers and/or plain
+    tuples / lists / dicts held by the caller (e.g. a saved state).  A node's
+    slots are read from its __getstate__ (leaf keys and values, interior
+    separators; data[0].key is not a slot); each node is visited once, a ghost
+    holds nothing.  Occurrences in held tuples / lists count as slots too."""
+    cnt = {id(o): 0 for o in objs}
+    seen = set()
+
+    def rec(x):
+        if isinstance(x, (tuple, list)):
+            for y in x:
+                rec(y)
+        elif isinstance(x, dict):
+            for k, v in x.items():
+                rec(k)
+                rec(v)
+        elif id(x) in cnt:
+            cnt[id(x)] += 1
+        elif is_node(x):
+            if id(x) in seen:
+                return
+            seen.add(id(x))
+            if getattr(x, "_p_changed", 0) is None:      # ghost: state released
+                return
+            rec(x.__getstate__())
+
+    rec(roots)
+    return [cnt[id(o)] for o in objs]
